@@ -49,19 +49,50 @@ def strategy(tier):
         # some targets get their working directory as a path relative to the invoking directory (API tier only;
         # the CLI tier always hands absolute working directories to gwf)
         flags = [draw(st.sampled_from([False, False, True])) for _ in d["targets"]]
-        return {"desc": d, "relwd": flags, "alt_root": draw(st.booleans())}
+        # edits applied to the Target objects after a first graph was built from them (then the graph is built again):
+        # drop the first input of target i / give target i the file j as an additional input
+        edits = draw(st.lists(st.one_of(st.tuples(st.just("drop"), st.integers(0, 9)),
+                                        st.tuples(st.just("add"), st.integers(0, 9), st.integers(0, 13))), max_size=3))
+        return {"desc": d, "relwd": flags, "alt_root": draw(st.booleans()), "edits": [list(e) for e in edits],
+                "invoke": draw(gen.invoke())}
 
     return with_relwd()
 
 
-def info_tier(desc, R):
+def edited(desc, edits):
+    """desc with the edits applied to the targets' inputs (None when nothing changes or the result is not a
+    well-formed workflow any more)."""
+    import copy
+
+    d2 = copy.deepcopy(desc)
+    ts = d2["targets"]
+    files = sorted(desc["files"])
+    changed = False
+    for e in edits:
+        t = ts[e[1] % len(ts)]
+        lv = [model.resolve_leaf(k, txt, t.get("wd") or "") for k, txt in model.leaves(t.get("inputs", []))]
+        if e[0] == "drop" and lv:
+            t["inputs"] = [{"__abs": p} for p in lv[1:]]
+            changed = True
+        elif e[0] == "add":
+            f = files[e[2] % len(files)]
+            if f not in lv:
+                t["inputs"] = [{"__abs": p} for p in lv] + [{"__abs": f}]
+                changed = True
+    if not changed:
+        return None
+    R2 = model.Resolved(d2)
+    return d2 if not R2.defects() else None
+
+
+def info_tier(desc, R, invoke=None):
     """`gwf info` (JSON) must report the same dependencies/dependents."""
     import json
 
     from vlib import project
 
     viols = []
-    with project.Project(desc, backend="slurm") as proj:
+    with project.Project(desc, backend="slurm", invoke=invoke) as proj:
         proj.set_files({p: (t if t is not None else None) for p, t in desc["files"].items()})
         r = proj.gwf(["info"])
         if r.code != 0 or r.crashed:
@@ -102,6 +133,23 @@ def info_tier(desc, R):
                     viols.append(Violation({"kind": "info-pretty-dependents"},
                                            f"info -f pretty {n}: Dependents {shown.get(n)} != {sorted(R.dependents[n])}"))
                     break
+        # several names and patterns in one request: exactly the matching targets, each with its relations
+        ordered = sorted(R.by_name)
+        if len(ordered) >= 2:
+            request = [ordered[-1], ordered[0]] + ([ordered[len(ordered) // 2][:1] + "*"] if len(ordered) >= 3 else [])
+            expect = model.match_names(ordered, request)
+            rm = proj.gwf(["info", *request])
+            try:
+                dm = json.loads(rm.out) if rm.code == 0 and not rm.crashed else None
+            except ValueError:
+                dm = None
+            if dm is None:
+                viols.append(Violation({"kind": "info-many-failed"}, rm.brief()))
+            elif set(dm) != expect or any(set(dm[n].get("dependents", ())) != R.dependents[n]
+                                          or set(dm[n].get("dependencies", ())) != R.deps[n] for n in dm if n in R.by_name):
+                viols.append(Violation({"kind": "info-many"},
+                                       f"`gwf info {' '.join(request)}` reports {sorted(dm)}, the request selects {sorted(expect)} "
+                                       f"(or their relations differ from the graph's)"))
         # a single named target reports the same relations
         first = sorted(R.by_name)[0]
         r1 = proj.gwf(["info", first])
@@ -156,9 +204,32 @@ def run_case(case):
         viols.append(Violation({"kind": "endpoints"}, f"endpoints {sorted(ends)} != {sorted(R.endpoints())}"))
 
     if '"__m"' not in json.dumps(desc) and not any(t.get("wd") == "lnk" for t in desc["targets"]):
-        viols += info_tier(desc, R)
+        viols += info_tier(desc, R, case.get("invoke"))
     else:
         labels.add("api-only-shape")
+
+    # the Target objects are edited and the graph is built again from the same objects: the new graph is the
+    # relation induced by the paths the targets carry now
+    d2 = edited(desc, case.get("edits") or []) if not viols else None
+    if d2 is not None:
+        labels.add("rebuilt-after-edit")
+        R2 = model.Resolved(d2)
+        try:
+            g2 = api.rebuild_graph(graph, d2)
+        except Exception as exc:  # noqa: BLE001
+            viols.append(Violation({"kind": "exception-after-edit", "type": type(exc).__name__},
+                                   f"well-formed workflow rejected after its targets were edited: {type(exc).__name__}: {exc}"))
+        else:
+            for t in g2.targets.values():
+                got = names(g2.dependencies.get(t, ()))
+                if got != R2.deps[t.name]:
+                    viols.append(Violation({"kind": "dependencies-after-edit"},
+                                           f"{t.name}: after editing the targets' inputs ({case['edits']}) and building the graph "
+                                           f"again, dependencies are {sorted(got)}, the paths induce {sorted(R2.deps[t.name])}"))
+                    break
+            ends = names(g2.endpoints())
+            if ends != R2.endpoints():
+                viols.append(Violation({"kind": "endpoints-after-edit"}, f"endpoints {sorted(ends)} != {sorted(R2.endpoints())}"))
 
     # non-triviality: alias spellings / homonyms
     occ = []  # (text, resolved)
